@@ -108,6 +108,18 @@ int run_script(std::size_t block_size)
             graveyard.push_back(alloc); alloc = n;
             std::printf("ma = assigned |%s ;%s\n", ev0.c_str(), U.take().c_str());
         }
+        else if (op == "mfa")
+        {   // a fresh allocator is move-assigned into a moved-from object, which is then destroyed:
+            // exactly the fresh allocator's block goes back, nothing that belongs to anybody else
+            if (graveyard.empty()) { std::printf("mfa = skipped |\n"); }
+            else
+            {
+                auto* g = graveyard.back(); graveyard.pop_back();
+                auto* f = new (U.place(sizeof(*alloc))) iteration_allocator<N, up_alloc>(block_size);
+                *g = std::move(*f); g->~iteration_allocator(); graveyard.push_back(f);
+                std::printf("mfa = done |%s\n", U.take().c_str());
+            }
+        }
         std::fflush(stdout);
     }
     verify(false);
